@@ -28,6 +28,7 @@ func init() {
 			"Q13 nil is stored into a node's comment fields only after they were read on every path; Q16 comments handed from a container to its first entry are cleared on the container; Q17 the comments of an empty binding list are printed by CallStm.format; Q14 roundUpTo takes the ceiling only after establishing that the value is not already a multiple; Q15 the float->integer conversion in formatGB is dominated by an upper bound. " +
 			"Q18 formatGB writes '-' on the edge where its parameter is negative. " +
 			"Q19 a parseHexByte result is stored as a raw byte only under the 'x' escape. " +
+			"Q20 FloatExp.format consults math.Signbit. " +
 			"NOT decided: idempotence, comment placement, number printing, topological order, include-expanded rendering.",
 		Assumptions: commonAssumptions,
 	}
@@ -209,6 +210,7 @@ func runC09(c *an.Ctx) {
 	ruleQ17(c)
 	ruleQ18(c)
 	ruleQ19(c)
+	ruleQ20(c)
 }
 
 func fieldOwner(p *an.Prog, f *types.Var) string {
